@@ -181,6 +181,31 @@ def outcomes(body, n, kinds):
             b = value(x["e"]) if "e" in x else True
             return a or b
         if k == "match" and not H.is_try(x):
+            sc = H.strip(x["scrut"])
+            if sc.get("k") == "tup":
+                # `match (args[0].as_ref(), args[1].as_ref()) { (Float(f), Integer(n)) => .., (Float(_), _) => .., _ => .. }`
+                idxs = [arg_of(e, aliases) for e in sc.get("es", [])]
+                if idxs and all(i is not None and i < len(kinds) for i in idxs):
+                    def tmatch(p):
+                        while p.get("k") in ("ref", "deref"):
+                            p = p["pat"]
+                        if p.get("k") in ("wild",) or (p.get("k") == "bind" and "sub" not in p):
+                            return True
+                        if p.get("k") == "or":
+                            return any(tmatch(q) for q in p["pats"])
+                        if p.get("k") == "tuple" and len(p["pats"]) == len(idxs):
+                            return all((kinds[i] in pat_kind(sp)) or ("*" in pat_kind(sp)) for i, sp in zip(idxs, p["pats"]))
+                        return None
+                    undecided = False
+                    for a in x["arms"]:
+                        tm = tmatch(a["pat"])
+                        if tm is None or (tm and a.get("guard") is not None):
+                            undecided = True
+                            break
+                        if tm:
+                            return value(a["body"])
+                    if not undecided:
+                        return True
             i = arg_of(x["scrut"], aliases)
             if i is not None and i < len(kinds):
                 for a in x["arms"]:
